@@ -112,6 +112,10 @@ func convertSliceOrArray(rv reflect.Value, rt reflect.Type) (reflect.Value, erro
 		value = reflect.MakeSlice(rt, rv.Len(), rv.Len())
 	} else {
 		// make array
+		if rv.Len() > rt.Len() {
+			// too many values for the array
+			return rv, errInvalidTypeConversion
+		}
 		value = reflect.New(rt).Elem()
 	}
 
